@@ -91,6 +91,9 @@ func readIndices(r io.Reader, version byte, binLimit uint32) ([]refIndex, error)
 	if n == 0 {
 		return nil, nil
 	}
+	if n < 0 {
+		return nil, fmt.Errorf("csi: invalid reference count: %d", n)
+	}
 	idx := make([]refIndex, n)
 	for i := range idx {
 		idx[i].bins, idx[i].stats, err = readBins(r, version, binLimit)
@@ -164,6 +167,9 @@ func readBins(r io.Reader, version byte, binLimit uint32) ([]bin, *index.Referen
 func readChunks(r io.Reader, n int32) ([]bgzf.Chunk, error) {
 	if n == 0 {
 		return nil, nil
+	}
+	if n < 0 {
+		return nil, fmt.Errorf("csi: invalid chunk count: %d", n)
 	}
 	var (
 		vOff uint64
